@@ -360,6 +360,14 @@ pub fn run_c09(cfg: &Cfg, log: &mut Log) {
             if cfg.thorough {
                 cuts.extend((0..bytes.len()).step_by(9));
             }
+            {
+                // partially built arrays of deep-copy items: cut inside every item
+                let mut cs = std::collections::BTreeSet::new();
+                rc.ty.constructors(&mut cs);
+                if cs.contains("[deep;n]") {
+                    cuts.extend((29..bytes.len()).step_by(if cfg.thorough { 1 } else { 2 }));
+                }
+            }
             cuts.sort();
             cuts.dedup();
             for k in cuts.into_iter().filter(|k| *k < bytes.len()) {
@@ -414,6 +422,10 @@ pub fn run_c09(cfg: &Cfg, log: &mut Log) {
                         let mut bad = vec![];
                         if c1.live != c0.live {
                             bad.push(format!("{} heap bytes leaked per call", c1.live - c0.live));
+                        }
+                        if c1.zero_sized != c0.zero_sized {
+                            log.violation("C09", &format!("C09/zero-sized-alloc/{}", lname), rc.name, Some(&v),
+                                format!("{} on a {} file called the allocator with a zero-sized layout ({} times): undefined behaviour, and the chunk is never released", lname, cause, c1.zero_sized - c0.zero_sized), vec![]);
                         }
                         if m1.0 != m0.0 || m1.1 != m0.1 {
                             bad.push(format!("memory mappings ({}, {} bytes) -> ({}, {} bytes); still mapped: {:?}", m0.0, m0.1, m1.0, m1.1, m1.2));
